@@ -109,7 +109,13 @@ func init() {
 			return one(st, TV{SSeqI, x.freshBytes(st, "path")})
 		})
 	simple("bytes.Trim", "bytes.Trim: total; result is a sub-slice of the input")
-	simple("os.IsNotExist", "os.IsNotExist: total predicate")
+	ext("os.IsNotExist", "os.IsNotExist(err): err is (or wraps through a path error) fs.ErrNotExist: class test in the error model",
+		func(x *Exec, st *State, fr *Frame, cc *ssa.CallCommon, args []Val, instr ssa.Instruction) []Outcome {
+			if e, ok := args[0].(ErrV); ok {
+				return one(st, TV{SBool, tEq(e.Class, "3")})
+			}
+			return one(st, TV{SBool, st.fresh("notexist", SBool)})
+		})
 	simple("os.ReadFile", "os.ReadFile: returns the file content or an error; never panics", optErrOrVal)
 	simple("os.OpenFile", "os.OpenFile: a non-nil file or an error", optErrOrVal)
 	simple("os.WriteFile", "os.WriteFile: nil or an error")
